@@ -37,8 +37,8 @@ GROUPS = []
 
 
 class Group:
-    def __init__(self, module, names, model, gen, etypes=(None,), note=None, doc="comment", aliases=None, weight=1.0):
-        self.module, self.names, self.model, self.gen = module, list(names), model, gen
+    def __init__(self, module, names, model, gen, etypes=(None,), note=None, doc="comment", aliases=None, weight=1.0, enum=None):
+        self.module, self.names, self.model, self.gen, self.enum = module, list(names), model, gen, enum
         self.etypes, self.note, self.doc, self.aliases, self.weight = tuple(etypes), note, doc, aliases, weight
         GROUPS.append(self)
 
@@ -1060,6 +1060,10 @@ def g_class(rng, T):
     return {"b": rng.choice(CLASS_POOL)}
 
 
+def e_class():
+    return [{"b": c} for c in CLASS_POOL]
+
+
 def is_upper_doc(c):
     return "A" <= c <= "Z" or c in LATIN1_UPPER
 
@@ -1076,52 +1080,52 @@ def is_german(c):
     return is_latin(c) or c in "äöüÄÖÜß"
 
 
-@G("Zeichen", ["Ist_Leer"], gen=g_class)
+@G("Zeichen", ["Ist_Leer"], gen=g_class, enum=e_class)
 def _(a):
     return a["b"] in " \n\t\r", {}
 
 
-@G("Zeichen", ["Ist_Groß"], gen=g_class, note="code points up to 255 plus symbols (€, emoji); capital letters beyond Latin-1 are left out ('es gibt noch viel mehr')")
+@G("Zeichen", ["Ist_Groß"], gen=g_class, enum=e_class, note="code points up to 255 plus symbols (€, emoji); capital letters beyond Latin-1 are left out ('es gibt noch viel mehr')")
 def _(a):
     return is_upper_doc(a["b"]), {}
 
 
-@G("Zeichen", ["Ist_Klein"], gen=g_class)
+@G("Zeichen", ["Ist_Klein"], gen=g_class, enum=e_class)
 def _(a):
     return is_lower_doc(a["b"]), {}
 
 
-@G("Zeichen", ["Ist_Leerzeichen"], gen=g_class)
+@G("Zeichen", ["Ist_Leerzeichen"], gen=g_class, enum=e_class)
 def _(a):
     return a["b"] == " ", {}
 
 
-@G("Zeichen", ["Buchstabe_Ist_Ziffer"], gen=g_class)
+@G("Zeichen", ["Buchstabe_Ist_Ziffer"], gen=g_class, enum=e_class)
 def _(a):
     return "0" <= a["b"] <= "9", {}
 
 
-@G("Zeichen", ["Ist_Kontroll"], gen=g_class)
+@G("Zeichen", ["Ist_Kontroll"], gen=g_class, enum=e_class)
 def _(a):
     return ord(a["b"]) <= 31, {}
 
 
-@G("Zeichen", ["Ist_Lateinischer_Buchstabe"], gen=g_class)
+@G("Zeichen", ["Ist_Lateinischer_Buchstabe"], gen=g_class, enum=e_class)
 def _(a):
     return is_latin(a["b"]), {}
 
 
-@G("Zeichen", ["Ist_Lateinischer_Buchstabe_Oder_Zahl"], gen=g_class)
+@G("Zeichen", ["Ist_Lateinischer_Buchstabe_Oder_Zahl"], gen=g_class, enum=e_class)
 def _(a):
     return is_latin(a["b"]) or "0" <= a["b"] <= "9", {}
 
 
-@G("Zeichen", ["Ist_Deutscher_Buchstabe"], gen=g_class)
+@G("Zeichen", ["Ist_Deutscher_Buchstabe"], gen=g_class, enum=e_class)
 def _(a):
     return is_german(a["b"]), {}
 
 
-@G("Zeichen", ["Ist_Deutscher_Buchstabe_Oder_Zahl"], gen=g_class)
+@G("Zeichen", ["Ist_Deutscher_Buchstabe_Oder_Zahl"], gen=g_class, enum=e_class)
 def _(a):
     return is_german(a["b"]) or "0" <= a["b"] <= "9", {}
 
@@ -1133,12 +1137,12 @@ def g_class_noß(rng, T):
             return d
 
 
-@G("Zeichen", ["Großgeschrieben"], gen=g_class_noß, note="ß left out (its capital form is not settled by the comment)")
+@G("Zeichen", ["Großgeschrieben"], gen=g_class_noß, enum=lambda: [d for d in e_class() if d["b"] != "ß"], note="ß left out (its capital form is not settled by the comment)")
 def _(a):
     return upper_de(a["b"]), {}
 
 
-@G("Zeichen", ["Kleingeschrieben"], gen=g_class)
+@G("Zeichen", ["Kleingeschrieben"], gen=g_class, enum=e_class)
 def _(a):
     return lower_de(a["b"]), {}
 
@@ -1316,17 +1320,21 @@ def g_round(rng, T):
     return {"wert": rng.choice(ROUND_POOL)}
 
 
-@G("Mathe", ["Floor"], gen=g_round)
+def e_round():
+    return [{"wert": x} for x in ROUND_POOL]
+
+
+@G("Mathe", ["Floor"], gen=g_round, enum=e_round)
 def _(a):
     return float(math.floor(a["wert"])), {}
 
 
-@G("Mathe", ["Ceil"], gen=g_round)
+@G("Mathe", ["Ceil"], gen=g_round, enum=e_round)
 def _(a):
     return float(math.ceil(a["wert"])), {}
 
 
-@G("Mathe", ["Trunc"], gen=g_round)
+@G("Mathe", ["Trunc"], gen=g_round, enum=e_round)
 def _(a):
     return float(math.trunc(a["wert"])), {}
 
